@@ -16,7 +16,7 @@ from lib import env
 from . import c01, phase
 
 TITLE = 'C02: weight bookkeeping and the min-selection contract of the sequential exact algorithms.'
-RULES = {'R02a': 5, 'R02b': 5, 'R02c': 3, 'R02d': 2, 'R02e': 8, 'R02f': 1}
+RULES = {'R02a': 5, 'R02b': 5, 'R02c': 3, 'R02d': 2, 'R02e': 8, 'R02f': 1, 'R01f': 2}
 
 
 def run(rep, tier):
